@@ -1,0 +1,16 @@
+// apparmor.d - Full set of apparmor profiles
+// SPDX-License-Identifier: GPL-2.0-only
+
+//go:build verif
+
+// Machine-checked contracts for package prebuild (comment-only; only part of the package
+// under the build tag "verif").
+package prebuild
+
+// getFamily searches famillyDists in map order and returns from inside the range: the
+// result does not depend on the iteration order because the distribution lists are
+// pairwise disjoint (checked on the table built by the real init code on every run).
+//@ func getFamily
+//@   opt prop=C03,C02
+//@   trusted
+//@   opt maprange1=disjoint famillyDists
